@@ -128,6 +128,10 @@ def accept_variant(kind, key_b64):
         return key_b64.decode("ascii", "replace")
     if kind == "empty":
         return ""
+    if kind == "braced":
+        return "{" + good + "}"
+    if kind == "format_field":
+        return "{0}{}%s"
     if kind.startswith("lit:"):
         return kind[4:]
     raise HttpError("unknown accept kind %r" % kind)
